@@ -65,6 +65,23 @@ def do_check(module, obname, timeout):
         StateSpace.fork_parallel = _fp
         StateSpace._vf_patched = True
 
+    # Every explored path starts from the import-time content of the module-level containers of the code under analysis
+    # (a process-wide cache filled by an earlier path would otherwise make a counterexample depend on exploration order
+    # and fail to replay).  One StateSpace is built per path.
+    if not getattr(StateSpace, "_vf_reset", False):
+        from vf import ModuleState
+        states = [ModuleState(m) for n, m in list(sys.modules.items())
+                  if n.startswith("nauyaca") and m is not None]
+        _orig_init = StateSpace.__init__
+
+        def _init(self, *a, **k):
+            for st in states:
+                st.restore()
+            return _orig_init(self, *a, **k)
+
+        StateSpace.__init__ = _init
+        StateSpace._vf_reset = True
+
     stats = collections.Counter()
     opts = AnalysisOptionSet(
         per_condition_timeout=float(timeout),
